@@ -179,6 +179,9 @@ class Effects:
         if t.kind == "method":
             if name == "open":
                 self._open_site(fn, call, True, sites)
+            elif name in ("read_text", "read_bytes") and not call.args:
+                # pathlib: read_text(encoding=..) == open(mode='r', newline=None, encoding=..).read()
+                sites.append(Site(fn, call, "FS_READ", {"via": name, "mode": "rt" if name == "read_text" else "rb"}))
             elif name in FS_WRITE_METHODS and not _is_str_method_ctx(call, name):
                 sites.append(Site(fn, call, "FS_WRITE", {"via": "." + name}))
             elif name in LOG_METHODS and isinstance(call.func, ast.Attribute) and unparse(call.func.value) in ("logger", "logging"):
